@@ -70,6 +70,7 @@ class Ctx:
         self.selftest: Counter[str] = Counter()
         self.notes: list[str] = []
         self.t0 = time.time()
+        self.cpu0 = time.process_time()
         self.deadline = self.t0 + float(params.get("_budget_s", 1e9))
 
     # ------------------------------------------------------------ budget
@@ -77,7 +78,13 @@ class Ctx:
         return self.deadline - time.time()
 
     def out_of_time(self) -> bool:
-        return time.time() > self.deadline
+        """The soft budget of a shard, counted in the CPU time of its own process so that a loaded machine shortens
+        nothing: a shard that got half a core works twice as long for the same coverage. Wall clock still bounds it
+        (twice the budget) for the shards that wait rather than compute; the hard watchdog of main.py is apart."""
+        budget = self.deadline - self.t0
+        if time.time() - self.t0 > 2.0 * budget:
+            return True
+        return time.process_time() - self.cpu0 > budget
 
     # ------------------------------------------------------------- cases
     def case(self, klass: str, key: Any = None, nontrivial: bool = True, sample: Any = None) -> None:
